@@ -60,6 +60,9 @@ def corpus(tier):
                   m('a', [], 'u8'), m('a1', [], 'u8')])
     svc('Cfgs', [m('kept_first', [('x', 'i8')], 'i8'), m('gone', [('x', 'i16')], 'i16', cfg='any()'), m('kept_mid', [('x', 'i32')], 'i32', cfg='all()'), m('gone2', [], None, cfg='any()'),
                  m('kept_last', [('x', 'i64')], 'i64')])
+    # several cfg attributes on one method: the method exists only if all of them hold
+    svc('MultiCfg', [m('both_on', [('x', 'i8')], 'i8', cfg=['all()', 'all()']), m('second_off', [('x', 'i16')], 'i16', cfg=['all()', 'any()']),
+                     m('first_off', [('x', 'i32')], 'i32', cfg=['any()', 'all()']), m('plain', [('x', 'i64')], 'i64'), m('three', [('y', 'u8')], 'u8', cfg=['all()', 'all()', 'any()'])])
     # a service without methods is rejected by rustc (match on an empty enum behind a reference): not in the corpus
     svc('NoSerde', [m('one', [('a', 'u8')], 'u8'), m('two', [('a', 'u8'), ('b', 'u8')], 'u8')], attr='(derive_serde = false)')
     svc('Derives', [m('one', [('a', 'u8')], 'u8'), m('other', [('a', 'String')], 'String')], attr='(derive = [Clone, PartialEq])')
@@ -85,6 +88,11 @@ def corpus(tier):
     return S
 
 
+def cfgs_of(me):
+    c = me['cfg']
+    return [] if not c else ([c] if isinstance(c, str) else list(c))
+
+
 def render(corp):
     out = ['#![allow(non_snake_case, non_camel_case_types, dead_code, unused, clippy::all)]\n']
     for i, s in enumerate(corp):
@@ -95,8 +103,8 @@ def render(corp):
         for me in s['methods']:
             if me['attrs']:
                 out.append('        %s\n' % me['attrs'])
-            if me['cfg']:
-                out.append('        #[cfg(%s)]\n' % me['cfg'])
+            for c_ in cfgs_of(me):
+                out.append('        #[cfg(%s)]\n' % c_)
             out.append('        async fn %s(%s)%s;\n' % (me['name'], ', '.join('%s: %s' % a for a in me['args']), (' -> ' + me['ret']) if me['ret'] else ''))
         out.append('    }\n}\n')
     return ''.join(out)
@@ -110,7 +118,7 @@ def unraw(n):
 def validate(R, F, P, idx, s):
     mod = 's%d' % idx
     svc = s['name']
-    live = [me for me in s['methods'] if me['cfg'] != 'any()']
+    live = [me for me in s['methods'] if 'any()' not in cfgs_of(me)]
     want_variants = [snake_to_camel(unraw(me['name'])) for me in live]
     key = lambda what, me=None: ('%s::%s' % (mod, svc),) + ((me['name'],) if me else ()) + (what,)
     req = F.adts.get('%s::%sRequest' % (mod, svc))
